@@ -218,7 +218,7 @@ def expand(spec, hist, res, successors):
             res.dims['rejected transitions'] += 1
         res.classes['%s:%s' % (op[0], ctx.outcome if ctx.outcome == 'ok' else 'raise:' + type(ctx.exc).__name__)] += 1
         spec.check(res, ctx)
-        key, size = canon(list(pool.values()))
+        key, size = canon(spec.state_objects(pool) if hasattr(spec, 'state_objects') else list(pool.values()))
         successors.append((spec.sid, hist + (op,), key))
 
 
@@ -248,7 +248,7 @@ def bfs_many(modname, sids, depth, tier, total, max_states=None, depth_of=None):
         spec = mod.SPECS[sid]
         pool, model, _ = run_history(spec, ())
         spec.initial_check(total, pool, model)
-        k0, _ = canon(list(pool.values()))
+        k0, _ = canon(spec.state_objects(pool) if hasattr(spec, 'state_objects') else list(pool.values()))
         seen[sid] = {k0}
         frontier[sid] = [()]
         sizes[sid] = [1]
